@@ -499,6 +499,30 @@ impl Exec {
                 }
                 s
             }
+            "qav" => {
+                // does p.append_value(v) leave the arena equal to new_node(v) followed by p.append(new)?
+                // (evaluated on two clones; `cur` is not modified)
+                let p = self.h(t, 1)?;
+                let v: u64 = num(t, 2)?;
+                CLONE_TAG.with(|c| c.set(0));
+                let ar = &self.cur.arena;
+                let r = guard(|| {
+                    let mut c1 = ar.clone();
+                    let mut c1r = ar.clone();
+                    c1r.reserve(8); // same comparison on an arena with spare capacity
+                    let mut c2 = ar.clone();
+                    let x1 = p.append_value(Pay { v, tag: 0 }, &mut c1);
+                    let x1r = p.append_value(Pay { v, tag: 0 }, &mut c1r);
+                    let x2 = c2.new_node(Pay { v, tag: 0 });
+                    p.append(x2, &mut c2);
+                    x1 == x2 && c1 == c2 && x1r == x2 && c1r == c2
+                });
+                match r {
+                    Ok(true) => "v 1".into(),
+                    Ok(false) => "v 0".into(),
+                    Err(_) => "v panic".into(),
+                }
+            }
             "qf" => {
                 CLONE_TAG.with(|c| c.set(0));
                 let ar = &self.cur.arena;
